@@ -128,13 +128,16 @@ def _winit(cli, mirror):
     _W["cli"], _W["mirror"] = cli, mirror
 
 
-def run_cli(fmt, text, timeout=30):
-    try:
-        p = subprocess.run([_W["cli"], OPT[fmt]], input=text.encode("latin-1"), stdout=subprocess.PIPE,
-                           stderr=subprocess.PIPE, timeout=timeout)
-        return p.returncode, p.stdout, p.stderr
-    except subprocess.TimeoutExpired:
-        return "timeout", b"", b""
+def run_cli(fmt, text, timeouts=(30, 120, 600)):
+    """a run takes ~5 ms; a timeout on a busy machine is retried with longer limits before it counts as a hang"""
+    for to in timeouts:
+        try:
+            p = subprocess.run([_W["cli"], OPT[fmt]], input=text.encode("latin-1"), stdout=subprocess.PIPE,
+                               stderr=subprocess.PIPE, timeout=to)
+            return p.returncode, p.stdout, p.stderr
+        except subprocess.TimeoutExpired:
+            continue
+    return "timeout", b"", b""
 
 
 def run_mirror(items):
